@@ -703,15 +703,19 @@ def elem_of_ptr(ct):
     return None
 
 
-def mem_harness(c, t, ect, n_expr, ptr_index, extra_args):
-    """harness lines: cnt = min(n, W); buf = malloc(cnt * sizeof T) filled from a nondet array"""
+def mem_harness(c, t, ect, n_expr, ptr_index, extra_args, aligned=False):
+    """harness lines: cnt = min(n, W); buf = malloc(cnt * sizeof T) filled from a nondet array.
+    Aligned forms: p is aligned to the vector size, so the naturally aligned vector-sized block containing the
+    addressed elements lies in the same page and reading it can neither fault nor be observed; the object is that
+    whole block (W elements) and the contract still forbids WRITING anything but the addressed elements."""
     W = t.W
     pre = ['%s init[%d];' % (ect, W),
            'uint32_t n_in = %s;' % n_expr,
            'uint32_t cnt = n_in < %du ? n_in : %du;' % (W, W),
-           '%s* buf = malloc((size_t)cnt * sizeof(%s));' % (ect, ect),
+           'uint32_t objn = %s;' % ('%du' % W if aligned else 'cnt'),
+           '%s* buf = malloc((size_t)objn * sizeof(%s));' % (ect, ect),
            '__CPROVER_assume(buf != 0);',
-           'for (int i = 0; i < %d; i++) if ((uint32_t)i < cnt) buf[i] = init[i];' % W]
+           'for (int i = 0; i < %d; i++) if ((uint32_t)i < objn) buf[i] = init[i];' % W]
     return pre
 
 
@@ -749,8 +753,9 @@ def f_memory(c):
         cnt = '(%s < %du ? %s : %du)' % (nn, t.W, nn, t.W)
         ens = [('%s lane %d' % (name, i), '%s == ((%du < %s) ? %s : 0)' % (t.lane(RV, i), i, cnt, bits_of(ect, '%s[%d]' % (p, i)))) for i in range(t.W)]
         k = Contract('mem_' + name + ('_n' if len(P) == 2 else '_N'), ['C08', 'C09'], ensures=ens, assigns=[], cxx=cxx)
-        k.harness = {'pre': mem_harness(c, t, ect, n_expr, 0, []), 'args': args}
-        k.mem = {'kind': 'load', 'elem': ect, 'W': t.W}
+        k.harness = {'pre': mem_harness(c, t, ect, n_expr, 0, [], aligned=name.startswith('aligned')), 'args': args}
+        k.harness_C08 = {'pre': mem_harness(c, t, ect, n_expr, 0, [], aligned=True), 'args': args}
+        k.mem = {'kind': 'load', 'elem': ect, 'W': t.W, 'aligned': name.startswith('aligned'), 'nparam': len(P) == 2}
         return k
     # ---------------- store / aligned_store
     if name in ('store', 'aligned_store') and len(P) >= 2 and elem_of_ptr(P[0]['ctype']) and c.PT[1].kind == 'vec' and c.fn['ret'] == 'void':
@@ -772,10 +777,14 @@ def f_memory(c):
         # assigns targets may not contain ?: -- min(n, W) written arithmetically
         cnt_noternary = '((size_t)(%s < %du) * (size_t)%s + (size_t)(%s >= %du) * (size_t)%du)' % (nn, t.W, nn, nn, t.W, t.W)
         ens = [('%s element %d' % (name, i), '!(%du < %s) || %s == %s' % (i, cnt, bits_of(ect, '%s[%d]' % (p, i)), t.lane(v, i))) for i in range(t.W)]
+        if name.startswith('aligned'):
+            ens += [('%s leaves element %d untouched' % (name, i), '(%du < %s) || %s == %s' % (
+                i, cnt, bits_of(ect, '%s[%d]' % (p, i)), bits_of(ect, OLD('%s[%d]' % (p, i))))) for i in range(t.W)]
         k = Contract('mem_' + name + ('_n' if len(P) == 3 else '_N'), ['C08', 'C09'], ensures=ens,
                      assigns=['__CPROVER_object_upto(%s, %s * sizeof(%s))' % (p, cnt_noternary, ect)], cxx=cxx)
-        k.harness = {'pre': mem_harness(c, t, ect, n_expr, 0, []) + ['%s a1;' % t.ct], 'args': args}
-        k.mem = {'kind': 'store', 'elem': ect, 'W': t.W}
+        k.harness = {'pre': mem_harness(c, t, ect, n_expr, 0, [], aligned=name.startswith('aligned')) + ['%s a1;' % t.ct], 'args': args}
+        k.harness_C08 = {'pre': mem_harness(c, t, ect, n_expr, 0, [], aligned=True) + ['%s a1;' % t.ct], 'args': args}
+        k.mem = {'kind': 'store', 'elem': ect, 'W': t.W, 'aligned': name.startswith('aligned'), 'nparam': len(P) == 3}
         return k
     # ---------------- to_array / array constructor / extract / insert (values only: C08)
     if name == 'to_array' and len(P) == 1 and c.PT[0].kind == 'vec' and re.match(r'^Arr_', c.fn['ret']):
